@@ -167,6 +167,8 @@ class Engine:
         skeleton (two f-strings with different skeletons are not known to be different)"""
         skel = tuple(p if isinstance(p, str) else None for p in parts)
         holes = [p for p in parts if not isinstance(p, str)]
+        if skel == (None,) and isinstance(holes[0], SV) and holes[0].t.sort() == StrS:
+            return holes[0]          # f'{s}' of a string is that string
         sorts = []
         targs = []
         for h in holes:
